@@ -27,6 +27,24 @@ CLAIMED = {
         "that h11/h2 serialise those events into bytes a client parses back identically; framing choices inside h11; byte-level flow control.",
         "5/C02",
     ),
+    "C03": (
+        "typestate abstract interpretation of HTTPStream/WSStream over the python ast (finite abstract store, all input words, ghost counters for disconnect/access/emissions), ordering rule (closed set before the first await), table-removal rules for both protocols, guard rules for post-close no-ops, shared write-path rules",
+        "All reachable abstract stores of both stream classes are explored under every protocol event and every ASGI message (about 250 stores, 9000 transitions per run): at most one disconnect and one access record on every word, exactly one at quiescence, nothing delivered after the disconnect, post-close sends are no-ops; plus structural rules that the StreamClosed arms mark the stream closed before their first await and that both protocols unregister a stream when closing it. Known findings F-02, F-03, F-18, F-36, F-37 are reported as such.",
+        "interleavings in which a handle() suspended at an await resumes after another task closed the stream; queue-full suspension; behaviour inside h11/h2/wsproto.",
+        "5/C03",
+    ),
+    "C04": (
+        "context-sensitive inter-procedural exception-escape analysis (primitive raiser tables: explicit raises, strict decodes, peer-keyed lookups, possibly-unbound locals via CFG dominance, library raisers frozen from the installed sources; handlers filtered with the real class hierarchy), library signature conformance via inspect.signature, error-path shape rules",
+        "For eight task roots (connection handler of both workers, HTTP/2 send task, idle timers, ping task, transport write path, application-exit path) the set of exception classes that can escape is computed over the resolved call graph with calling contexts (event class / None arguments); on the current tree exactly the thirteen known escapes F-06..F-12 remain. Every call into h11/h2/wsproto/priority is bound against the installed signature (F-11: RequestReceived() cannot be constructed).",
+        "exceptions raised inside the libraries for reasons absent from the raiser tables; resource exhaustion; HTTP/3.",
+        "5/C04",
+    ),
+    "C16": (
+        "sibling cross-check: every asyncio/trio method pair is matched against one abstract effect skeleton (per-runtime call pattern, arguments, guards, handler classes, lock/timeout context, order) with a census of unclaimed effectful calls; twin-equality of normalised ASTs for functions that must be identical",
+        "17 method pairs (TCPServer.run/protocol_send/_read_data/_close/_idle_timeout/_initiate_server_close, _handle, spawn_app, SingleTask.restart/stop, Lifespan.handle_lifespan/wait_for_*) must realise the same skeleton; 6 functions must be equal after renaming the runtime module. An effect added, dropped, reordered, re-guarded or re-parameterised on one worker only is reported with the step it breaks; the nine accepted divergences are the single-sided steps, each with its reason.",
+        "equivalence of the two runtimes' scheduling/cancellation semantics, timing; a consistent change to BOTH workers requires a skeleton update.",
+        "5/C16",
+    ),
     "C05": (
         "CFG must-pass-through with exceptional edges (every exit of _handle passes send(None)), handler-shape rules, call-graph reachability of reset_stream from the StreamClosed arm, h2 configuration rule, typestate rules for the app_send(None) arms",
         "Both task-group wrappers are checked on all normal, exceptional and cancellation exits; application errors are logged and contained; the wrapper is spawned with the stream's own send/receive; h2 keeps outbound header normalisation on (the server's 500 carries connection: close). The missing RST_STREAM on abort is reported as known finding F-15.",
